@@ -27,7 +27,7 @@ type Target struct {
 // TargetsCase is an argv of 1..4 targets in order.
 type TargetsCase struct {
 	Targets []Target `json:"targets"`
-	ViaRun  bool     `json:"via_run"` // `taskctl run a b` instead of `taskctl a b`
+	ViaRun  bool     `json:"via_run"`            // `taskctl run a b` instead of `taskctl a b`
 	RunTask bool     `json:"run_task,omitempty"` // `taskctl run task a b` (tasks only)
 }
 
